@@ -30,7 +30,7 @@ ASSUMPTIONS = [
     'boson / quadrature "same operator" is decided in the polynomial (Bargmann / Schroedinger) representation on all monomials of degree <= max term length per mode',
 ]
 OPEN_STATEMENTS = [
-    'canonicity (linear independence of normal-ordered monomials => equal operators have equal normal forms) is not proved for any algebra: checked by the canonicity stream (oracle) only',
+    'canonicity is proved for fermions (canonicity_fermion, tolerance 0); for bosons and quadratures the linear independence of normal-ordered monomials in the polynomial representation is not proved: checked by the canonicity stream (oracle) only',
     'soundness (fermion: Spec.melF; boson / quadrature, every hbar: Spec.applyOp coefficients on canonical exponent vectors) is proved for the Model run with tolerance 0; with EQ_TOLERANCE the code additionally deletes sums below 1e-8: on the generated inputs these are exact zeros (checked per case: r vs r0), no theorem covers inexact inputs',
     'InteractionOperator branch: correspondence + oracle only (no theorem); reorder: proved for FermionOperator (relabelling of the generators), other classes by correspondence + oracle',
     'termination fuel: noTerm uses fuel len(term)+1; that this fuel never runs out is a consequence of the soundness theorem for tolerance 0 (an exhausted fuel would return the empty dictionary) and is otherwise covered by the correspondence run',
